@@ -683,6 +683,27 @@ func (e *SpecEnv) call(n *ast.CallExpr) (SV, error) {
 				return SV{}, err
 			}
 			return SV{T(fmt.Sprintf("(= (%s %s) %d)", w.itypeFn(), xv.T.S, typeID(tt)), "Bool"), tBoolT}, nil
+		case "ite":
+			// ite(c, a, b): a when c holds, b otherwise (for ghost updates that depend on what a call returned)
+			if len(n.Args) != 3 {
+				return SV{}, fmt.Errorf("ite(c, a, b)")
+			}
+			savedRole := e.unk
+			e.unk = true
+			c, err := e.evalBool(n.Args[0])
+			e.unk = savedRole
+			if err != nil {
+				return SV{}, err
+			}
+			a, err := e.eval(n.Args[1])
+			if err != nil {
+				return SV{}, err
+			}
+			b, err := e.eval(n.Args[2])
+			if err != nil {
+				return SV{}, err
+			}
+			return SV{T(fmt.Sprintf("(ite %s %s %s)", c.S, a.T.S, b.T.S), a.T.Sort), a.Typ}, nil
 		case "implies":
 			e.neg = !e.neg
 			a, err := e.evalBool(n.Args[0])
